@@ -107,6 +107,21 @@ def value_tasks(pid, tier, repo, seed, R):
     return tasks
 
 
+def c12_tasks(pid, tier, repo, seed, R):
+    tasks = value_tasks(pid, tier, repo, seed, R) + def_tasks(pid, tier, repo, seed, R, ["_from_base", "_to_base"])
+    cl = concrete_classes(R)
+    for c in cl:
+        tasks.append(dict(kind="c12", repo=repo, seed=seed, cname=c, props=[pid], threads=True, label=f"C12:default:{c}"))
+    pick = cl if tier == "thorough" else [c for c in cl if c in ("JSONDict", "JSONList", "MemoryBufferedJSONAttrDict",
+                                                                 "BufferedJSONList", "RedisDict", "MongoDBList", "ZarrDict")]
+    sweeps = [(f"{c}:round-trip", "replay/roundtrip_replay.py", ["search", c],
+               "30 JSON values (boundary scalars, 2**70, unicode/escapes, empty keys/containers, bool/int/float "
+               "look-alikes, nestings) x every mutating entry point incl. overwrite of a look-alike; read back by a "
+               "fresh object; equality and leaf types") for c in pick]
+    tasks.append(dict(kind="bounded", repo=repo, seed=seed, props=[pid], sweeps=sweeps, threads=True, label=f"{pid}:bounded:round-trip"))
+    return tasks
+
+
 def c11_tasks(pid, tier, repo, seed, R):
     return value_tasks(pid, tier, repo, seed, R) + def_tasks(pid, tier, repo, seed, R, ["_validate"])
 
@@ -224,13 +239,29 @@ def c10_tasks(pid, tier, repo, seed, R):
     return tasks
 
 
+def c03_tasks(pid, tier, repo, seed, R):
+    import json as _json
+    tasks = def_tasks(pid, tier, repo, seed, R)
+    # inherited Sequence mixins with loops / generator expressions (index, count, __contains__): outside the executed
+    # subset -> bounded differential sweep against list (labelled bounded, never counted as proved)
+    lists = [c for c in concrete_classes(R) if R["classes"][c]["kind"] == "list"]
+    pick = lists if tier == "thorough" else [c for c in lists if c in ("JSONList", "MemoryBufferedJSONAttrList", "RedisList")]
+    sweeps = [(f"{c}.index/count/__contains__@stdlib:Sequence", "replay/harness.py",
+               ["sweep", _json.dumps({"class": c, "property": "C03", "methods": ["index", "count", "__contains__"],
+                                      "roles": ["root", "nested-in-dict"]})],
+               "4 list documents x value pool of replay/harness.py, root and nested receivers") for c in pick]
+    tasks.append(dict(kind="bounded", repo=repo, seed=seed, props=[pid], sweeps=sweeps, threads=True, label=f"{pid}:bounded:sequence-mixins"))
+    return tasks
+
+
 EXTRA = {p: def_tasks for p in DEFS_FOR}
 EXTRA["C02"] = c02_tasks
+EXTRA["C03"] = c03_tasks
 EXTRA["C10"] = c10_tasks
 EXTRA["C16"] = c16_tasks
 EXTRA["C18"] = c18_tasks
 EXTRA["C11"] = c11_tasks
-EXTRA["C12"] = value_tasks
+EXTRA["C12"] = c12_tasks
 EXTRA["C08"] = c08_all
 for _p in ("C05", "C06", "C07", "C15"):
     EXTRA[_p] = buffer_tasks
